@@ -305,6 +305,106 @@ func c15eGen(r *rng, tier string, emit func(string)) {
 			emit(fmt.Sprintf("evilgm %s %s %x", v, opt, r.u64()))
 		}
 	}
+	for _, opt := range []string{"-", "npn", "npn+auth"} {
+		for _, v := range []string{"honest", "npn-honest", "npn-omit", "npn-twice", "omit-ccs", "fin-first", "fin-twice", "fin-bad", "hreq-before-ccs", "unk-before-ccs",
+			"cke-again", "unk-after-ccs", "fin-early-after-ccs"} {
+			emit(fmt.Sprintf("evilgmc %s %s %x", v, opt, r.u64()))
+		}
+	}
+}
+
+// evilgmc <variant> <server options> <seed> : a scripted GM CLIENT (gmtls/export_verif_c08.go, VerifEvilClient: a copy
+// of the library's GM client handshake with the listed deviations; it holds its own pre-master secret, so transcript
+// and Finished stay consistent) against the genuine GM server. Server options: npn (Config.NextProtos set, so the
+// server announces NPN to a hello that carries the NPN extension and no ALPN), auth (RequireAndVerifyClientCert).
+// variant: honest | npn-honest (hello with NPN, NextProtocol sent) | npn-omit (NextProtocol left out) | npn-twice |
+// omit-ccs | fin-first | fin-twice | fin-bad | hreq-before-ccs | unk-before-ccs | cke-again (a second
+// ClientKeyExchange after ChangeCipherSpec) | unk-after-ccs | fin-early-after-ccs (Finished, then NextProtocol)
+// The server completes with the honest variants and with no other.
+func init() { evals["evilgmc"] = evalEvilGMC }
+
+func evalEvilGMC(args []string) string {
+	if len(args) != 3 {
+		return "bad-op"
+	}
+	variant, opts := args[0], args[1]
+	m, _, _ := pkis()
+	ccfg, scfg := gmClientCfg(m), gmServerCfg(m)
+	scfg.SessionTicketsDisabled = true
+	npn := false
+	if opts != "-" {
+		for _, o := range strings.Split(opts, "+") {
+			switch o {
+			case "npn":
+				scfg.NextProtos = []string{"proto-a", "proto-b"}
+				ccfg.NextProtos = []string{"proto-b"}
+				npn = true
+			case "auth":
+				scfg.ClientAuth = gmtls.RequireAndVerifyClientCert
+				scfg.ClientCAs = m.pool
+				ccfg.Certificates = []gmtls.Certificate{m.client}
+			default:
+				return "bad-op"
+			}
+		}
+	}
+	mk := func(t byte, body []byte) []byte {
+		return append([]byte{t, byte(len(body) >> 16), byte(len(body) >> 8), byte(len(body))}, body...)
+	}
+	k := &gmtls.VerifEvilClient{}
+	honest := false
+	switch variant {
+	case "honest":
+		honest = true
+	case "npn-honest":
+		k.NPNOnly = true
+		honest = true
+	case "npn-omit":
+		k.NPNOnly, k.OmitNextProto = true, true
+		honest = !npn // nothing is omitted when the server does not announce NPN
+	case "npn-twice":
+		k.NPNOnly, k.NextProtoTwice = true, true
+		honest = !npn
+	case "omit-ccs":
+		k.OmitChangeCipherSpec = true
+	case "fin-first":
+		k.FinishedBeforeCCS = true
+	case "fin-twice":
+		k.FinishedTwice = true
+		honest = true // the handshake is over after the first Finished; the second one is a matter for Read (C07/C15 post)
+	case "fin-bad":
+		k.FinishedXor = []byte{0, 0, 0, 0, 0, 0, 0, 0, 0, 0, 0, 1}
+	case "hreq-before-ccs":
+		k.ExtraBeforeCCS = [][]byte{mk(0, nil)}
+	case "unk-before-ccs":
+		k.ExtraBeforeCCS = [][]byte{mk(99, nil)}
+	case "cke-again":
+		k.ExtraAfterCCS = [][]byte{mk(16, []byte{0, 0})}
+	case "unk-after-ccs":
+		k.ExtraAfterCCS = [][]byte{mk(99, nil)}
+	case "fin-early-after-ccs":
+		k.NPNOnly = true
+		k.ExtraAfterCCS = [][]byte{mk(20, make([]byte, 12))}
+	default:
+		return "bad-op"
+	}
+	res, _, _ := c08Run(ccfg, scfg, nil, c08Evil{client: k})
+	if res.s.panicked != "" {
+		return "ORACLE-FAIL:panic:" + strings.ReplaceAll(res.s.panicked, " ", "_")
+	}
+	if res.s.hung {
+		return "ORACLE-FAIL:server-does-not-return"
+	}
+	if res.s.done {
+		if !honest {
+			return "ORACLE-FAIL:completed-on-misbehaviour"
+		}
+		return "done"
+	}
+	if honest {
+		return "ORACLE-FAIL:honest-scripted-client-refused:" + strings.ReplaceAll(fmt.Sprint(res.s.err), " ", "_")
+	}
+	return "error"
 }
 
 // evilgm <variant> <client options> <seed> : the same idea for GMSSL, with the scripted GM server of
